@@ -8,14 +8,15 @@ for f in sorted(glob.glob("/tmp/seedrun_*.json")):
     for r in json.load(open(f)):
         caught.setdefault(r["seed"], {})[r["check"]] = dict(rc=r["rc"], sig=r["sig"], secs=r["secs"])
 kept, dropped = [], []
-for out in sorted(glob.glob("/tmp/seed/C*.out")):
+SEED_ROOT = os.environ.get("SEED_ROOT", "/tmp/seed")
+for out in sorted(glob.glob(SEED_ROOT + "/C*.out")):
     pid = os.path.basename(out)[:-4]
     for x in "AB":
         cj = os.path.join(out, "confirm_%s.json" % x)
         if not os.path.exists(cj):
             continue
         c = json.load(open(cj))
-        name = pid + x
+        name = pid + (x if SEED_ROOT == "/tmp/seed" else {"A": "C", "B": "D"}[x])
         with_fail = c.get("demo_with_change") and all(d["rc"] != 0 for d in c["demo_with_change"][:1]) and any(d["rc"] != 0 for d in c["demo_with_change"])
         without_ok = c.get("demo_without_change") and all(d["rc"] == 0 for d in c["demo_without_change"])
         pk = c.get("suite_pkgs") or []
